@@ -21,6 +21,59 @@ def all_units():
     return sorted(f[:-6] for f in os.listdir(V.UNITS) if f.endswith(".rs.in"))
 
 
+def unit_text(unit_or_path, depth=0):
+    """template text of a unit with its //@include files expanded (for scanning, not for verification)"""
+    path = unit_or_path if os.path.isabs(unit_or_path) else os.path.join(V.UNITS, unit_or_path + ".rs.in")
+    out = []
+    try:
+        for line in open(path).read().split("\n"):
+            m = re.match(r"\s*//@include\s+(\S+)", line)
+            if m and depth < 6:
+                out.append(unit_text(os.path.join(os.path.dirname(path), m.group(1)), depth + 1))
+            else:
+                out.append(line)
+    except OSError:
+        pass
+    return "\n".join(out)
+
+
+def unit_dependencies(unit, idx):
+    """what a unit's proofs rest on, as written in the unit: `//@define ASSUME_UNIT_x` (contracts of unit x included in
+    assume mode) and `ASSUMED-FROM-UNIT: <unit> …` / `ASSUMED-FROM-UNIT: kani <harness> …` comments on assumed contracts"""
+    t = unit_text(unit)
+    units, harnesses = set(), set()
+    known = set(all_units())
+    for m in re.finditer(r"//@define\s+ASSUME_UNIT_(\w+)", t):
+        if m.group(1) in known:
+            units.add(m.group(1))
+    for m in re.finditer(r"ASSUMED-FROM-UNIT:\s*(.*)", t):
+        rest = m.group(1).strip()
+        toks = rest.split()
+        if not toks:
+            continue
+        if toks[0] == "kani":
+            for name in re.findall(r"\bc\d\d_[A-Za-z0-9_]*\*?", rest):
+                if name.endswith("*"):
+                    harnesses.update(h for h in idx if h.startswith(name[:-1]))
+                elif name in idx:
+                    harnesses.add(name)
+        elif toks[0] in known:
+            units.add(toks[0])
+    units.discard(unit)
+    return units, harnesses
+
+
+def dependency_closure(units, idx):
+    """direct dependencies only: the contracts these units themselves assume.  (The transitive closure is nearly every
+    unit and harness for nearly every property; what a dependency assumes in turn is decided under its own properties.)"""
+    du, dh = set(), set()
+    for u in units:
+        a, b = unit_dependencies(u, idx)
+        du |= a
+        dh |= b
+    return sorted(du - set(units)), sorted(dh)
+
+
 def load_json(path, dflt):
     try:
         return json.load(open(path))
@@ -111,6 +164,14 @@ def check_property(prop, tier):
     idx = V.kani_harness_index()
     harnesses = sorted(h for h, m in idx.items() if prop in m.get("props", "").split(",")
                        and (tier == "thorough" or m.get("tier", "quick") == "quick"))
+    # what the proofs of these units rest on (contracts they assume from other units / harnesses): run too; a failure
+    # anywhere in a dependency breaks this property's proof and is reported under it, whatever its own tag says
+    dep_units, dep_h = dependency_closure(units, idx)
+    dep_h = sorted(h for h in dep_h if h not in harnesses and (tier == "thorough" or idx[h].get("tier", "quick") == "quick"))
+    own_units = list(units)
+    own_harnesses = list(harnesses)
+    units = units + dep_units
+    harnesses = harnesses + dep_h
     undecided = []
     violations = []   # (obligation, where, detail, replay-text, found_input)
     known_hits = []
@@ -126,7 +187,7 @@ def check_property(prop, tier):
     unit_summ = {}
     # --- Verus units (in parallel with Kani)
     ex = cf.ThreadPoolExecutor(max_workers=8)
-    futs = {u: ex.submit(run_unit_with_canary, u) for u in units}
+    futs = {u: (ex.submit(run_unit_with_canary, u) if u in own_units else ex.submit(lambda x: (V.run_verus_unit(x, canary=False), None), u)) for u in units}
     kfut = ex.submit(V.run_kani, harnesses) if harnesses else None
     for u in units:
         r, canary = futs[u].result()
@@ -160,7 +221,10 @@ def check_property(prop, tier):
                     undecided.append("unit %s: assumption scan differs from the committed count for %s: %s != %s" % (u, k, r.assumed.get(k, 0), v))
         else:
             undecided.append("unit %s has no committed expectation file (run ./check --bless %s)" % (u, u))
+        is_dep = u not in own_units
         for it in r.items:
+            if is_dep:
+                break
             if it["kind"] == "fn" and not it["external_body"] and (not it["tags"] or prop in it["tags"]):
                 under_contract.append({"fn": "%s :: %s :: %s" % (it["file"], it["container"], it["item"]),
                                        "lines": it["src_lines"], "sha256": it["sha256"], "unit": u, "rules": it["rules"]})
@@ -171,9 +235,11 @@ def check_property(prop, tier):
                 discharged += 1
         backends["verus"] = backends.get("verus", 0) + len(r.functions)
         for f in r.failures:
-            if not failure_belongs(f, prop, uprops):
+            if not is_dep and not failure_belongs(f, prop, uprops):
                 continue
             ob = obligation_name(f)
+            if is_dep:
+                ob = "dependency(%s):%s" % (u, ob)
             where = "%s::%s" % (u, f["function"])
             site = (f.get("site") or {}).get("text") or f.get("text") or ""
             k = match_known(known, prop, ob, where, site)
@@ -209,6 +275,8 @@ def check_property(prop, tier):
                     samples.append("%s: kani %s harness %s (%s checks, %.1fs)" % (meta.get("tag", h), kind, h, hi.get("checks"), hi.get("time_s") or 0))
             elif hi["status"] == "failed":
                 ob = meta.get("tag", h)
+                if h not in own_harnesses:
+                    ob = "dependency(kani):%s" % ob
                 descs = "; ".join("%s @ %s:%s" % (c["desc"], c["file"].split("/")[-1], c["line"]) for c in hi["failed_checks"][:6])
                 k = match_known(known, prop, ob, h, descs)
                 if k:
@@ -264,6 +332,8 @@ def check_property(prop, tier):
             "trusted_base": info.get("trusted_base", []),
             "samples": samples[:60] or ["(no obligation sample)"],
             "units": unit_summ,
+            "dependencies": {"units": dep_units, "kani_harnesses": dep_h,
+                             "meaning": "contracts the units of this property assume from other units / harnesses (ASSUMED-FROM-UNIT comments, ASSUME_UNIT includes), one level deep; they are run too and any failed obligation in them is reported under this property"},
             "kani_harnesses": {h: {k: v for k, v in (kres.harnesses.get(h) or {}).items() if k in ("status", "time_s", "checks", "covers_ok", "covers_total")} for h in harnesses} if kres else {},
             "under_contract": under_contract,
             "backends": backends,
